@@ -21,7 +21,7 @@ CURR_ADAPT = ("Izhikevich", "AdEx")
 
 
 def _params(rng, cls, dt):
-    refrac_choices = [0.0, dt, 2 * dt, 2.5 * dt, 3 * dt] + ([0.3] if dt == 0.1 else [])
+    refrac_choices = [0.0, dt, 2 * dt, 2.5 * dt, 3 * dt, 0.4 * dt, 0.25 * dt, 0.75 * dt, 1.5 * dt] + ([0.3] if dt == 0.1 else [])
     p = {"refrac_t": rng.choice(refrac_choices)}
     rest = rng.choice([-70.0, -65.0, -60.0])
     thr = rng.choice([-50.0, -55.0, -45.0])
